@@ -1,0 +1,200 @@
+//go:build verif
+
+// Contracts for govc (contract-based deductive verification); comments only.
+package subgroup_info
+
+// ---- PodSet: representation invariant ---------------------------------------
+// maps exist, every bucket of the status index is a real map, buckets are pairwise distinct objects and distinct from podInfos
+//@ define psWF(ps *PodSet) bool = ps != nil && ps.podInfos != nil && ps.podStatusMap != nil && ps.podStatusIndex != nil && (forall s in ps.podStatusIndex :: ps.podStatusIndex[s] != nil && allocated(ps.podStatusIndex[s]) && ps.podStatusIndex[s] != ps.podInfos) && (forall s1 in ps.podStatusIndex :: forall s2 in ps.podStatusIndex :: s1 != s2 ==> ps.podStatusIndex[s1] != ps.podStatusIndex[s2])
+
+// 0/1 indicator of a status class (classes are pinned down by the pod_status contracts)
+//@ define inAA(s int) int = ite(pod_status.IsActiveAllocatedStatus(s), 1, 0)
+//@ define inAU(s int) int = ite(pod_status.IsActiveUsedStatus(s), 1, 0)
+//@ define inAlive(s int) int = ite(pod_status.IsAliveStatus(s), 1, 0)
+
+// C14 (gang counters "equal the value recomputed from the pods and their statuses"): the recomputed value
+// is the number of entries of podStatusMap whose status is in the class; removing the entry of ti.UID
+// lowers each counter by exactly the indicator of the recorded status.
+//@ func (*PodSet).clearOldStatus
+//@   props C14 C03
+//@   requires psWF(ps) && ti != nil
+//@   modifies ps.numActiveAllocatedTasks, ps.numActiveUsedTasks, ps.numAliveTasks, ps.podStatusIndex[ps.podStatusMap[ti.UID]][ti.UID], ps.podStatusMap[ti.UID], ps.podInfos[ti.UID]
+//@   ensures [aa] ps.numActiveAllocatedTasks == old(ps.numActiveAllocatedTasks) - old(ite(ti.UID in ps.podStatusMap, inAA(ps.podStatusMap[ti.UID]), 0))
+//@   ensures [au] ps.numActiveUsedTasks == old(ps.numActiveUsedTasks) - old(ite(ti.UID in ps.podStatusMap, inAU(ps.podStatusMap[ti.UID]), 0))
+//@   ensures [alive] ps.numAliveTasks == old(ps.numAliveTasks) - old(ite(ti.UID in ps.podStatusMap, inAlive(ps.podStatusMap[ti.UID]), 0))
+//@   ensures [gone] !(ti.UID in ps.podStatusMap)
+//@   ensures [goneIdx] old(ti.UID in ps.podStatusMap) ==> !(ti.UID in ps.podInfos) && !(ti.UID in ps.podStatusIndex[old(ps.podStatusMap[ti.UID])])
+//@   ensures psWF(ps)
+//@ end
+
+// C14: AssignTask (re)records ti under ti.Status: every counter moves by
+// [ti.Status in class] - [previously recorded status of ti.UID in class], and the three maps record ti.
+//@ func (*PodSet).AssignTask
+//@   props C14 C03
+//@   requires psWF(ps) && ti != nil
+//@   modifies ps.schedulingConstraintsSignature, ps.numActiveAllocatedTasks, ps.numActiveUsedTasks, ps.numAliveTasks, ps.podStatusIndex[ps.podStatusMap[ti.UID]][ti.UID], ps.podStatusIndex[ti.Status][ti.UID], ps.podStatusIndex[ti.Status], ps.podStatusMap[ti.UID], ps.podInfos[ti.UID]
+//@   ensures [aa] ps.numActiveAllocatedTasks == old(ps.numActiveAllocatedTasks) - old(ite(ti.UID in ps.podStatusMap, inAA(ps.podStatusMap[ti.UID]), 0)) + inAA(ti.Status)
+//@   ensures [au] ps.numActiveUsedTasks == old(ps.numActiveUsedTasks) - old(ite(ti.UID in ps.podStatusMap, inAU(ps.podStatusMap[ti.UID]), 0)) + inAU(ti.Status)
+//@   ensures [alive] ps.numAliveTasks == old(ps.numAliveTasks) - old(ite(ti.UID in ps.podStatusMap, inAlive(ps.podStatusMap[ti.UID]), 0)) + inAlive(ti.Status)
+//@   ensures [statusMap] ti.UID in ps.podStatusMap && ps.podStatusMap[ti.UID] == ti.Status
+//@   ensures [infos] ti.UID in ps.podInfos && ps.podInfos[ti.UID] == ti
+//@   ensures [index] ti.Status in ps.podStatusIndex && ti.UID in ps.podStatusIndex[ti.Status] && ps.podStatusIndex[ti.Status][ti.UID] == ti
+//@   ensures [moved] old(ti.UID in ps.podStatusMap && ps.podStatusMap[ti.UID] != ti.Status) ==> !(ti.UID in ps.podStatusIndex[old(ps.podStatusMap[ti.UID])])
+//@   ensures [sig] ps.schedulingConstraintsSignature == ""
+//@   ensures psWF(ps)
+//@ end
+
+//@ func NewPodSet
+//@   props C14 C10
+//@   fresh
+//@   ensures psWF(result)
+//@   ensures result.minAvailable == minAvailable && result.name == name && result.parent == nil && result.topologyConstraint == topologyConstraint
+//@   ensures result.numActiveAllocatedTasks == 0 && result.numActiveUsedTasks == 0 && result.numAliveTasks == 0
+//@   ensures len(result.podInfos) == 0 && len(result.podStatusMap) == 0 && len(result.podStatusIndex) == 0
+//@ end
+
+// C03 (DESIGN): IsReadyForScheduling <==> alive - gated >= min.
+//@ func (*PodSet).IsReadyForScheduling
+//@   props C03
+//@   requires ps != nil
+//@   pure
+//@   ensures result == (ps.numAliveTasks - len(ps.podStatusIndex[pod_status.Gated]) >= ps.minAvailable)
+//@ end
+
+// C03: "every pod set ... has at least its minimum member count of active pods"
+//@ func (*PodSet).IsGangSatisfied
+//@   props C03
+//@   requires ps != nil
+//@   pure
+//@   ensures result == (ps.numActiveUsedTasks >= ps.minAvailable)
+//@ end
+
+// C06/C03: a pod set is elastic iff it has more pods than its minimum
+//@ func (*PodSet).IsElastic
+//@   props C03 C06
+//@   requires ps != nil
+//@   pure
+//@   ensures result == (ps.minAvailable < len(ps.podInfos))
+//@ end
+
+// ---- factory.go: C10 "pod groups with invalid sub-group graphs or non-positive minimums ... terminates
+// without panicking"; DESIGN C10: total for every []SubGroup (duplicates, unknown or cyclic parents, empty
+// names, MinMember <= 0): returns an error or a tree; every pod set has minAvailable >= 1. -----------------
+// No precondition on the content of Spec.SubGroups anywhere below.
+
+//@ func mapSubGroupsAndChildren
+//@   props C10
+//@   requires podGroup != nil
+//@   loop 1
+//@     invariant allSubGroups != nil && children != nil && fresh(allSubGroups) && fresh(children)
+//@     invariant forall k in allSubGroups :: allSubGroups[k] != nil
+//@     invariant rangeindex >= -1
+//@     invariant forall q *string :: !fresh(q) ==> *q == old(*q)
+//@     decreases len(podGroup.Spec.SubGroups) - rangeindex
+//@   ensures result2 == nil ==> result0 != nil && result1 != nil && fresh(result0) && fresh(result1)
+//@   ensures result2 == nil ==> (forall k in result0 :: result0[k] != nil)
+//@ end
+
+//@ func NewSubGroupSet
+//@   props C10
+//@   fresh
+//@   ensures result != nil && result.name == name && result.parent == nil && result.topologyConstraint == topologyConstraint
+//@   ensures len(result.groups) == 0 && len(result.podSets) == 0
+//@ end
+
+// the two name->node maps hold no nil entry; every pod set has a positive minimum (DESIGN C10: "minAvailable >= 1")
+//@ define setsOK(m map[string]*SubGroupSet) bool = forall k in m :: m[k] != nil
+//@ define podSetsOK(m map[string]*PodSet) bool = forall k in m :: m[k] != nil && m[k].minAvailable >= 1
+
+//@ func createSubGroupInfos
+//@   props C10
+//@   requires subGroupSets != nil && podSets != nil
+//@   requires forall k in allSubGroups :: allSubGroups[k] != nil
+//@   requires setsOK(subGroupSets) && podSetsOK(podSets)
+//@   modifies subGroupSets[*], podSets[*]
+//@   loop 1
+//@     invariant setsOK(subGroupSets) && podSetsOK(podSets)
+//@     invariant forall k in subGroupSets :: k in allSubGroups || old(k in subGroupSets)
+//@     invariant forall k in podSets :: k in allSubGroups || old(k in podSets)
+//@   ensures setsOK(subGroupSets) && podSetsOK(podSets)
+//@   ensures forall k in subGroupSets :: k in allSubGroups || old(k in subGroupSets)
+//@   ensures forall k in podSets :: k in allSubGroups || old(k in podSets)
+//@ end
+
+//@ func (*SubGroupSet).AddSubGroup
+//@   props C10
+//@   requires sgs != nil && subGroup != nil
+//@   modifies subGroup.parent, sgs.groups
+//@   ensures subGroup.parent == sgs
+//@   ensures len(sgs.groups) == old(len(sgs.groups)) + 1 && sgs.groups[len(sgs.groups) - 1] == subGroup
+//@   ensures forall i int :: 0 <= i && i < old(len(sgs.groups)) ==> sgs.groups[i] == old(sgs.groups[i])
+//@ end
+
+//@ func (*SubGroupSet).AddPodSet
+//@   props C10 C14
+//@   requires sgs != nil && podSet != nil
+//@   modifies podSet.parent, sgs.podSets
+//@   ensures podSet.parent == sgs
+//@   ensures len(sgs.podSets) == old(len(sgs.podSets)) + 1 && sgs.podSets[len(sgs.podSets) - 1] == podSet
+//@   ensures forall i int :: 0 <= i && i < old(len(sgs.podSets)) ==> sgs.podSets[i] == old(sgs.podSets[i])
+//@ end
+
+// unknown parent -> error, never a nil dereference
+//@ func addSubGroupSetToParent
+//@   props C10
+//@   requires subGroupSet != nil && setsOK(subGroupSets)
+//@   modifies subGroupSet.parent, subGroupSets[formatParentName(parentName)].groups
+//@   ensures result == nil <==> formatParentName(parentName) in subGroupSets
+//@ end
+
+//@ func addPodSetToParent
+//@   props C10
+//@   requires podSet != nil && setsOK(subGroupSets)
+//@   modifies podSet.parent, subGroupSets[formatParentName(parentName)].podSets
+//@   ensures result == nil <==> formatParentName(parentName) in subGroupSets
+//@ end
+
+// every name in the two maps (except the root "") is a declared sub-group: what createSubGroupInfos establishes
+//@ define namesKnown(all map[string]*v2alpha2.SubGroup, sets map[string]*SubGroupSet, pods map[string]*PodSet) bool = (forall k in sets :: k != "" ==> k in all && all[k] != nil) && (forall k in pods :: k in all && all[k] != nil)
+
+// Only the tree links (parent, groups, podSets) of sub-group nodes are written: `family(x.f)` = field f of any object.
+//@ func addToParent
+//@   props C10
+//@   requires setsOK(subGroupSets) && podSetsOK(podSets) && namesKnown(allSubGroups, subGroupSets, podSets)
+//@   modifies family(subGroupSets[""].parent), family(subGroupSets[""].groups), family(subGroupSets[""].podSets)
+//@   loop 1
+//@     invariant true
+//@   loop 2
+//@     invariant true
+//@ end
+
+// placeholder of type *SubGroupSet used only to name field families in `modifies family(...)`
+//@ declare anySet() *SubGroupSet
+
+// C10 top: for EVERY content of podGroup.Spec.SubGroups FromPodGroup returns an error or a root node, never panics,
+// and touches nothing but tree links of sub-group nodes.
+//@ func FromPodGroup
+//@   props C10
+//@   requires podGroup != nil
+//@   modifies family(anySet().parent), family(anySet().groups), family(anySet().podSets)
+//@   ensures [errOrTree] (result1 != nil && result0 == nil) || (result1 == nil && result0 != nil && fresh(result0))
+//@   ensures [rootIsRoot] result1 == nil ==> result0.name == ""
+//@ end
+
+// GetAllPodSets walks the sub-group tree recursively. Its totality (no nil child, termination) depends on the
+// nodes reachable from sgs forming a finite tree of non-nil nodes: a reachability invariant that per-function contracts
+// over this heap model cannot state (a quantifier over "all *SubGroupSet" ranges over every address). NOT decided
+// here (see report); proved is only what callers need: the result is a new map (whenever the call returns).
+//@ func (*SubGroupSet).GetAllPodSets
+//@   props C10
+//@   nopanic off
+//@   note no-panic/termination of the recursive tree walk need a reachability invariant (tree of non-nil nodes below sgs); only the freshness of the result is proved
+//@   fresh
+//@   loop 1
+//@     invariant result != nil && fresh(result)
+//@   loop 2
+//@     invariant result != nil && fresh(result)
+//@   loop 3
+//@     invariant result != nil && fresh(result)
+//@   ensures result != nil
+//@ end
